@@ -453,6 +453,43 @@ wait:
 	return cc, ""
 }
 
+// waitOrDeadlock waits for done.  Every 3 s it looks at the goroutine dump:
+// if, twice in a row, every goroutine that is inside a cache.Cache method is
+// parked on a lock, none of them can ever be released (state-based, not a
+// timeout: a slow machine shows running or runnable goroutines).
+func waitOrDeadlock(done <-chan struct{}) string {
+	tk := time.NewTicker(3 * time.Second)
+	defer tk.Stop()
+	strikes := 0
+	for {
+		select {
+		case <-done:
+			return ""
+		case <-tk.C:
+			buf := make([]byte, 1<<20)
+			n := runtime.Stack(buf, true)
+			inside, parked := 0, 0
+			for _, b := range strings.Split(string(buf[:n]), "\n\n") {
+				if !strings.Contains(b, "mds/cache.(*Cache") {
+					continue
+				}
+				inside++
+				head, _, _ := strings.Cut(b, "\n")
+				if strings.Contains(head, "[sync.") || strings.Contains(head, "[semacquire") {
+					parked++
+				}
+			}
+			if inside > 0 && parked == inside {
+				if strikes++; strikes >= 2 {
+					return fmt.Sprintf("deadlock: all %d goroutines that are inside cache.Cache methods are parked on a lock (Mutex / RWMutex), so nobody can release it", inside)
+				}
+			} else {
+				strikes = 0
+			}
+		}
+	}
+}
+
 func blockedOnMutex(gids []int64, finished []atomic.Bool) string {
 	buf := make([]byte, 1<<20)
 	n := runtime.Stack(buf, true)
@@ -472,14 +509,16 @@ func blockedOnMutex(gids []int64, finished []atomic.Bool) string {
 		}
 		unfinished++
 		b, ok := byID[id]
-		if !ok || !strings.Contains(b, "sync.(*Mutex).Lock") || !strings.Contains(b, "mds/cache.(*Cache") {
+		parked := strings.Contains(b, "sync.(*Mutex).Lock") || strings.Contains(b, "sync.(*RWMutex).Lock") || strings.Contains(b, "sync.(*RWMutex).RLock") ||
+			strings.Contains(b, "sync.(*Cond).Wait") || strings.Contains(b, "[semacquire") || strings.Contains(b, "[sync.Mutex.Lock") || strings.Contains(b, "[sync.RWMutex")
+		if !ok || !parked || !strings.Contains(b, "mds/cache.(*Cache") {
 			return ""
 		}
 	}
 	if unfinished == 0 {
 		return ""
 	}
-	return fmt.Sprintf("deadlock: all %d unfinished goroutines are parked in sync.(*Mutex).Lock inside cache.Cache methods and no goroutine holds the lock", unfinished)
+	return fmt.Sprintf("deadlock: all %d unfinished goroutines are parked on a lock (Mutex / RWMutex / Cond) inside cache.Cache methods, so nobody can release it", unfinished)
 }
 
 // ---------------------------------------------------------------------------
@@ -846,9 +885,17 @@ func executeBigClearG[K comparable, V any](c BigClearCase, kk keyKit[K], vt valK
 	}
 	close(start)
 	runtime.Gosched()
-	cc.Clear()
-	cleared.Store(true)
-	wg.Wait()
+	wg.Add(1)
+	go func() {
+		defer wg.Done()
+		cc.Clear()
+		cleared.Store(true)
+	}()
+	allDone := make(chan struct{})
+	go func() { wg.Wait(); close(allDone) }()
+	if d := waitOrDeadlock(allDone); d != "" {
+		return d, true
+	}
 	for _, e := range errs {
 		if e != "" {
 			return e, true
